@@ -38,7 +38,7 @@ func rootCtx(d *Driver, what string) map[string]string {
 			st = "emptied"
 		}
 	}
-	return map[string]string{"mismatch": what, "state": st}
+	return map[string]string{"mismatch": what, "state": st, "after_failed_shrink": fmt.Sprint(d.AfterFailedShrink)}
 }
 
 // checkCanonical compares a persisted root with the reference tree of the model.
@@ -103,7 +103,7 @@ func runC04(c *fw.C) {
 	}
 	c.Desc("cfg{%s} pool=%d ops=%d", cfg, pool, nops)
 	d := NewDriver(c, "C04", cfg, pool)
-	d.WPersist, d.WReload, d.WClone = 8, 4, 3
+	d.WPersist, d.WReload, d.WClone, d.WFault = 8, 4, 3, 3
 	d.OnRoot = func(d *Driver, root *mast.Root) { checkCanonical(d, root, "C04.canonical_root") }
 	for i := 0; i < nops && !d.Failed && !c.Violated(); i++ {
 		d.Step()
